@@ -571,6 +571,9 @@ class Projection:
                 dfuk += deriva.inner(deriva)
                 dfuk = dfuk if abs(dfuk) > 1e-6 else 1e-6
                 newu = uk - fuk / dfuk
+                if isinstance(newu, Fraction):
+                    # The number of digits triples at each iteration
+                    newu = newu.limit_denominator(Intersection.max_denom)
                 usample[k] = min(one, max(newu, zero))
             usample = list(set(usample))
             if len(usample) == 1:
